@@ -664,7 +664,15 @@ class Inliner(object):
         env2 = dict(env)
         for p in h.reassigned:
             nm = p if p not in caller_names else '%s_%s' % (p, h.fn.name.strip('_'))
-            pre.append(ast.Assign(targets=[ast.Name(id=nm, ctx=ast.Store())], value=copy.deepcopy(env[p]), lineno=h.fn.lineno))
+            # the caller hands over its own variable of the same name and never reads it again: the helper may go on using that name
+            a_ = env.get(p)
+            cur = getattr(self, 'cur_fn', None)
+            at = getattr(self, 'cur_line', None)
+            if nm != p and isinstance(a_, ast.Name) and a_.id == p and cur is not None and at is not None and not any(
+                    isinstance(x, ast.Name) and x.id == p and isinstance(x.ctx, ast.Load) and getattr(x, 'lineno', 0) > at for x in ast.walk(cur)):
+                nm = p
+            if not (isinstance(env[p], ast.Name) and env[p].id == nm):
+                pre.append(ast.Assign(targets=[ast.Name(id=nm, ctx=ast.Store())], value=copy.deepcopy(env[p]), lineno=h.fn.lineno))
             del env2[p]
             if nm != p:
                 rename[p] = nm
@@ -711,6 +719,7 @@ class Inliner(object):
         if not m or m[0].kind != 'stmt':
             return None
         h, env = m
+        self.cur_line = getattr(st, 'end_lineno', getattr(st, 'lineno', None))
         if ctxk != 'return' and h.has_return and not h.tail:
             return None
         if h.globals:
@@ -1370,6 +1379,58 @@ def field_temporaries(tree):
     return n
 
 
+# ------------------------------------------------------------------ P21 a local dict literal read only by constant keys is its scalars
+def explode_local_records(tree):
+    """`d = {'a': e1, 'b': e2}` in a function, d assigned only there and used only as d['a'] / d['b'] loads: the entries become the
+    locals d_a, d_b (evaluated in the same order at the same place)."""
+    n = 0
+    for fn in [f for f in ast.walk(tree) if isinstance(f, ast.FunctionDef)]:
+        parent = {}
+        for p_ in ast.walk(fn):
+            for c in ast.iter_child_nodes(p_):
+                parent[id(c)] = p_
+        names = {x.id for x in ast.walk(fn) if isinstance(x, ast.Name)} | {a.arg for a in fn.args.args}
+        for owner in ast.walk(fn):
+            for _nm, blk in _blocks(owner):
+                for st in list(blk):
+                    if not (isinstance(st, ast.Assign) and len(st.targets) == 1 and isinstance(st.targets[0], ast.Name) and isinstance(st.value, ast.Dict)
+                            and st.value.keys and all(isinstance(k, ast.Constant) and isinstance(k.value, str) and k.value.isidentifier() for k in st.value.keys)):
+                        continue
+                    d = st.targets[0].id
+                    occ = [x for x in ast.walk(fn) if isinstance(x, ast.Name) and x.id == d]
+                    stores = [x for x in occ if isinstance(x.ctx, (ast.Store, ast.Del))]
+                    if len(stores) != 1:
+                        continue
+                    keys = [k.value for k in st.value.keys]
+                    ok = True
+                    for x in occ:
+                        if x is stores[0]:
+                            continue
+                        par = parent.get(id(x))
+                        if not (isinstance(par, ast.Subscript) and par.value is x and isinstance(par.ctx, ast.Load) and isinstance(par.slice, ast.Constant)
+                                and par.slice.value in keys):
+                            ok = False
+                    new_names = {k: '%s_%s' % (d, k) for k in keys}
+                    if not ok or any(v in names for v in new_names.values()) or len(set(keys)) != len(keys):
+                        continue
+
+                    class _T(ast.NodeTransformer):
+                        def visit_Subscript(self, node):
+                            self.generic_visit(node)
+                            if isinstance(node.value, ast.Name) and node.value.id == d and isinstance(node.slice, ast.Constant) and node.slice.value in new_names:
+                                return ast.copy_location(ast.Name(id=new_names[node.slice.value], ctx=ast.Load()), node)
+                            return node
+                    repl = [ast.copy_location(ast.Assign(targets=[ast.Name(id=new_names[k.value], ctx=ast.Store())], value=v), st)
+                            for k, v in zip(st.value.keys, st.value.values)]
+                    i = blk.index(st)
+                    blk[i:i + 1] = repl
+                    for k_ in range(len(fn.body)):
+                        fn.body[k_] = _T().visit(fn.body[k_])
+                    ast.fix_missing_locations(fn)
+                    n += 1
+    return n
+
+
 # ------------------------------------------------------------------ P13 a record class that did not exist then is the dict it replaced
 def records_to_dicts(tree, new_names):
     """P13.  `class C(NamedTuple)` with plain fields, new since the baseline, whose instances are only built (C(...), x._replace(...)),
@@ -1822,6 +1883,13 @@ def normalise_source(src, rel, baseline, cf=None, lookups=True, renames=None, fo
         new_consts = set(consts) - set(base['constants']) if base else set()
     if new_fns:
         changed += Inliner(tree, new_fns, folded_names).run()
+        try:
+            # records built by helpers that have just been inlined are visible as constructor calls only now
+            if records_to_dicts(tree, new_fns):
+                changed += 1
+        except (ValueError, RecursionError):
+            pass
+        explode_local_records(tree)
     if new_consts:
         changed += subst_new_constants(tree, {c for c in new_consts if '.' not in c})
     before = ast.dump(tree)
@@ -1838,8 +1906,9 @@ def normalise_source(src, rel, baseline, cf=None, lookups=True, renames=None, fo
         get_default_to_if(tree)
         DictLiteralGet().visit(tree)
     rename_accumulators(tree)
-    field_temporaries(tree)
     if split:
+        # the rewrites that also reshape code the rules already recognise as written are confined to the `kinds` views
+        field_temporaries(tree)
         case_split_kinds(tree)
     if cf:
         apply_cf(tree, cf)
